@@ -81,6 +81,17 @@ def laws(sym, t1, t2s, t3s, strlen=1):
         check(lt == ref_lt(x, y), 'order differs from the documented ladder', x, y, lt)
         if _native_eq_applicable(x, y):
             check(eq == bool(x == y), 'equivalence differs from native ==', x, y, eq)
+        # the consumers (comparison selectors, range selectors) compare a wrapped value with a *raw* cell, in
+        # either operand position (reflected operators): every such comparison has to give the wrapped-vs-wrapped answer
+        check(bool(X < y) == lt, 'wrapped < raw differs from wrapped < wrapped', x, y, lt)
+        check(bool(x < Y) == lt, 'raw < wrapped (reflected) differs from wrapped < wrapped', x, y, lt)
+        check(bool(X <= y) == (lt or eq), 'wrapped <= raw differs from wrapped <= wrapped', x, y)
+        check(bool(x <= Y) == (lt or eq), 'raw <= wrapped (reflected) differs from wrapped <= wrapped', x, y)
+        check(bool(X > y) == gt, 'wrapped > raw differs from wrapped > wrapped', x, y)
+        check(bool(x > Y) == gt, 'raw > wrapped (reflected) differs from wrapped > wrapped', x, y)
+        check(bool(X >= y) == (not lt), 'wrapped >= raw differs from wrapped >= wrapped', x, y)
+        check(bool(x >= Y) == (not lt), 'raw >= wrapped (reflected) differs from wrapped >= wrapped', x, y)
+        check(bool(X == y) == eq, 'wrapped == raw differs from wrapped == wrapped', x, y, eq)
     check(not bool(A < A), 'irreflexivity', a)
     ab, bc, ac = bool(A < B), bool(B < C), bool(A < C)
     if ab and bc:
@@ -123,8 +134,13 @@ def issorted_consumer(sym, N, dom, keyed):
 def selector_consumer(sym, N, dom):
     """selectlt / selectge partition the rows consistently with the ordering."""
     n = nrows(sym, 'n', N)
-    ks = [cell(sym, 'k%d' % i, dom) for i in range(n)]
-    v = cell(sym, 'v', dom)
+    if dom == 'seq':
+        # list / tuple cells and reference values (<= 2 items from None | int | str), every list/tuple combination
+        ks = [mkval(sym, 'k%d' % i, 'seq', False, 1) for i in range(n)]
+        v = mkval(sym, 'v', 'seq', False, 1)
+    else:
+        ks = [cell(sym, 'k%d' % i, dom) for i in range(n)]
+        v = cell(sym, 'v', dom)
     table = [['t', 'k']] + [['T%d' % i, k] for i, k in enumerate(ks)]
     lt = [r[0] for r in petl.selectlt(table, 'k', v)][1:]
     ge = [r[0] for r in petl.selectge(table, 'k', v)][1:]
@@ -165,11 +181,11 @@ def jobs(tier):
                 for t3 in ['int', 'str', 'seq1' if t1 == t2 == 'seq' else 'seq']:   # split: sequences fork most
                     out.append(dict(name='laws/%s/%s/%s' % (t1, t2, t3), func='laws',
                                     params=dict(t1=t1, t2s=[t2], t3s=[t3], strlen=1),
-                                    budget=400 if [t1, t2, t3].count('seq') >= 2 else 120))
+                                    budget=1200 if [t1, t2, t3].count('seq') >= 2 else 360))
                 continue
             out.append(dict(name='laws/%s/%s' % (t1, t2), func='laws',
                             params=dict(t1=t1, t2s=[t2], t3s=t3q if q else TYPES, strlen=1 if q else 2),
-                            budget=120 if q else 900))
+                            budget=360 if q else 900))
     N = 3 if q else 4
     for dom in ('M', 'O'):
         for keyed in (True, False):
@@ -190,5 +206,7 @@ def jobs(tier):
                             params=dict(N=3 if dom == 'M' or bs is None else 2, keyform='single', dom=dom, ragged=False, bs=bs,
                                         reverse=False, cache=True), budget=240 if q else 900))
     out.append(dict(name='selectors/M', func='selector_consumer', params=dict(N=2 if q else 3, dom='M'),
+                    budget=240 if q else 900))
+    out.append(dict(name='selectors/seq', func='selector_consumer', params=dict(N=1 if q else 2, dom='seq'),
                     budget=240 if q else 900))
     return out
